@@ -25,7 +25,7 @@ theorem prec_tables_wf :
   decide
 
 def rt (e : Expr) : Bool :=
-  let text := Print.render (fun _ _ => 1) e
+  let text := Print.render (fun _ _ => 1) Lex.asciiClass e
   let ts := Lex.lex Lex.asciiClass text.toList
   let (e', rest) := Parse.parseEq (Parse.parseFuel ts) ts
   Parse.peek rest == .eof && (repr e').pretty == (repr e).pretty
@@ -36,18 +36,18 @@ private def c := Expr.unit "c"
 
 /-- (test) the shapes that lost their parentheses before the fix now round-trip -/
 theorem former_counterexamples_roundtrip :
-    Print.render (fun _ _ => 1) (.binop .sub a (.binop .sub b c)) = "a - (b - c)" ∧
-    Print.render (fun _ _ => 1) (.binop .frac a (.binop .frac b c)) = "a / (b / c)" ∧
-    Print.render (fun _ _ => 1) (.binop .mod a (.binop .frac b c)) = "a mod (b / c)" ∧
-    Print.render (fun _ _ => 1) (.binop .equals a (.binop .equals b c)) = "a = (b = c)" ∧
-    Print.render (fun _ _ => 1) (.ofProp "foo" (.binop .frac a b)) = "foo of (a / b)" ∧
-    Print.render (fun _ _ => 1) (.binop .pow a (.binop .pow b c)) = "a^b^c" := by
+    Print.render (fun _ _ => 1) Lex.asciiClass (.binop .sub a (.binop .sub b c)) = "a - (b - c)" ∧
+    Print.render (fun _ _ => 1) Lex.asciiClass (.binop .frac a (.binop .frac b c)) = "a / (b / c)" ∧
+    Print.render (fun _ _ => 1) Lex.asciiClass (.binop .mod a (.binop .frac b c)) = "a mod (b / c)" ∧
+    Print.render (fun _ _ => 1) Lex.asciiClass (.binop .equals a (.binop .equals b c)) = "a = (b = c)" ∧
+    Print.render (fun _ _ => 1) Lex.asciiClass (.ofProp "foo" (.binop .frac a b)) = "foo of (a / b)" ∧
+    Print.render (fun _ _ => 1) Lex.asciiClass (.binop .pow a (.binop .pow b c)) = "a^b^c" := by
   decide +kernel
 
 /-- (test) a signed factor that is not first in a product is parenthesised -/
 theorem sign_factor_parenthesised :
-    Print.render (fun _ _ => 1) (.mul [a, .unary .negative b]) = "a (-b)" ∧
-    Print.render (fun _ _ => 1) (.mul [.unary .negative a, b]) = "-a b" := by
+    Print.render (fun _ _ => 1) Lex.asciiClass (.mul [a, .unary .negative b]) = "a (-b)" ∧
+    Print.render (fun _ _ => 1) Lex.asciiClass (.mul [.unary .negative a, b]) = "-a b" := by
   decide +kernel
 
 end Rink.Spec
